@@ -2,7 +2,8 @@
    dec <hex>      parse + decode a JPEG stream given as hex
    file <path>    same, stream read from a file
    emit <ints>    build a stream with the spec writer (see checks/C04.py for the format)
-   Result lines:  ok sof=<n> nc=<k> warn=0 | w h c.. | w h c..      (decoded)
+   Result lines:  ok sof=<n> nc=<k> warn=0 | w h c.. | w h c.. ; Q q0..q63 ; Q ..   (decoded; tables in natural order)
+                  lossless sof=3 nc=<k> warn=0 | w h s.. | ..                        (Annex H samples)
                   parsed sof=<n>                                     (valid syntax, process not decoded)
                   reject-syntax | reject-invalid | decode-fail sof=<n>
                   hex <stream> | fail                                (emit) *)
@@ -24,8 +25,19 @@ let dec_bytes bs =
   | Some st ->
     if not (stream_ok st) then print_endline "reject-invalid" else
     let n = sof_of st in
-    if n > 1 then Printf.printf "parsed sof=%d\n" n else
-    match t81_decode st with
+    if n = 3 then begin
+      match t81_decode_lossless st with
+      | None -> Printf.printf "decode-fail sof=3\n"
+      | Some comps ->
+        let b = Buffer.create 65536 in
+        Buffer.add_string b (Printf.sprintf "lossless sof=3 nc=%d warn=0" (List.length comps));
+        List.iter (fun ((w, h), l) ->
+          Buffer.add_string b (Printf.sprintf " | %d %d" (int_of_z w) (int_of_z h));
+          List.iter (fun c -> Buffer.add_char b ' '; Buffer.add_string b (string_of_int (int_of_z c))) l) comps;
+        print_endline (Buffer.contents b)
+    end else
+    if n > 2 then Printf.printf "parsed sof=%d\n" n else
+    match (if n = 2 then t81_decode_progressive st else t81_decode st) with
     | None -> Printf.printf "decode-fail sof=%d\n" n
     | Some comps ->
       let b = Buffer.create 65536 in
@@ -33,6 +45,9 @@ let dec_bytes bs =
       List.iter (fun ((w, h), blocks) ->
         Buffer.add_string b (Printf.sprintf " | %d %d" (int_of_z w) (int_of_z h));
         List.iter (fun blk -> List.iter (fun c -> Buffer.add_char b ' '; Buffer.add_string b (string_of_int (int_of_z c))) blk) blocks) comps;
+      (match t81_qtables st with
+       | None -> Buffer.add_string b " ; Q none"
+       | Some qs -> List.iter (fun q -> Buffer.add_string b " ; Q"; List.iter (fun c -> Buffer.add_char b ' '; Buffer.add_string b (string_of_int (int_of_z c))) q) qs);
       print_endline (Buffer.contents b)
 let hex_of bs =
   let b = Buffer.create 4096 in List.iter (fun z -> Buffer.add_string b (Printf.sprintf "%02x" (int_of_z z))) bs; Buffer.contents b
